@@ -373,6 +373,40 @@ def _surface(case, ctx):
             if ok2:
                 _same_shape(ctx, 'C13.transpose.involution', T2, model, rc, fi, params=[[0.0, 1.0], [0.0, 1.0]])
 
+    if want('transpose'):
+        # the in-place method of the surface object, after every flat / 2-D / unweighted view had been read
+        rc = dict(case, only='transpose')
+        for opname in ('transpose', 'flip'):
+            src = S.build(desc)
+            _ = (src.ctrlpts, src.ctrlpts2d, src.bbox, src.evalpts, src.weights if rat else None)
+            fi = dict(f0, op=opname + '_method_after_reads', inplace=True)
+            if opname == 'transpose':
+                ok, _r = _attempt(ctx, 'C13.transpose.result', lambda: src.transpose(), rc, fi)
+                exp_def = expT
+            else:
+                ok, _r = _attempt(ctx, 'C13.flip.result', lambda: operations.flip(src, inplace=True), rc, fi)
+                exp_def = R.shape_def([pu, pv], desc['kvs'], [su, sv],
+                                      [_hpt(desc, (su - 1 - u, sv - 1 - v)) for u in range(su) for v in range(sv)], rat)
+            if not ok:
+                continue
+            _same_shape(ctx, 'C13.%s' % opname, src, exp_def, rc, fi)
+            # all views address the same point for the same (u, v)
+            nu, nv = src.ctrlpts_size_u, src.ctrlpts_size_v
+            g2 = src.ctrlpts2d
+            flat = [list(p) for p in src.ctrlpts]
+            wts = list(src.weights) if rat else None
+            okv = len(flat) == nu * nv and len(g2) == nu and all(len(r) == nv for r in g2)
+            if okv:
+                for u in range(nu):
+                    for v in range(nv):
+                        q = list(g2[u][v])
+                        want_pt = [c / q[-1] for c in q[:-1]] if rat else q
+                        if any(abs(a - b) > 1e-12 * max(1.0, abs(b)) for a, b in zip(flat[v + nv * u], want_pt)):
+                            okv = False
+                        if rat and abs(wts[v + nv * u] - q[-1]) > 1e-12:
+                            okv = False
+            ctx.check('C13.%s.views_agree' % opname, okv, rc, fi, 'ctrlpts[v + size_v*u] and weights agree with ctrlpts2d[u][v]', None)
+
     if want('flip'):
         rc = dict(case, only='flip')
         expF = R.shape_def([pu, pv], desc['kvs'], [su, sv],
